@@ -3,8 +3,10 @@
    Model/TokenFmt.v is tied to the real handlers by harness/drv_C04.py: the plaintext of real opaque tokens is
    recovered with the handler's key and compared with the model, the info() outcome matrix (handler x minted
    class x shared/distinct keys) is compared, and the oracle presents every genuine, wrong-class and mutated
-   token in every slot of the real endpoints.  Cryptography is symbolic: Fernet = AEnc, JWS = Sig (Lib/Crypto.v);
-   byte-level integrity is exercised, not proved. *)
+   token in every slot of the real endpoints.  Where the handler keys come from (given by the deployment / generated
+   by the library from the process's random source) is part of the model: histories of independently built real
+   provider instances are compared with it (key material, who accepts whose tokens).  Cryptography is symbolic:
+   Fernet = AEnc, JWS = Sig (Lib/Crypto.v); byte-level integrity is exercised, not proved. *)
 From Coq Require Import String List.
 From Verif Require Import Lib.Base Lib.PyStr Lib.Crypto Model.Lv Proofs.Lv_proofs Model.TokenFmt Proofs.TokenFmt_proofs.
 From Verif Require Import Model.JwtKeys Proofs.JwtKeys_proofs.
@@ -329,3 +331,104 @@ Theorem C04_lv_pack_is_source : forall args clock,
   Src_db.lv_pack_src (VList (List.map VStr args)) clock = Ok (VStr (lv_pack args)).
 Proof. exact Src_refine.lv_pack_refines. Qed.
 Print Assumptions C04_lv_pack_is_source.
+
+(* WHERE THE HANDLER KEYS COME FROM (Model/TokenFmt.v ksrc / ispec / iconstruct / ibuild_all).  ispec says for each opaque
+   class handler and for the session manager whether the deployment gave the key (KsGiven k: crypt_conf with a key, or
+   with a password AND a salt) or the library generates it (KsGen: the documented `"code": {"lifetime": 600}`,
+   `kwargs: {}`, a crypt_conf without key material, key_defs without a key file, DefaultToken / init_encrypter without
+   configuration, session_params without encrypter).  iconstruct sup s n builds the instance when n draws have been
+   made from the process's random source (sup d = the key material of draw d) and returns the number of draws made
+   afterwards.  THE FRESHNESS ASSUMPTION is stated as the hypothesis `draws_distinct sup` (two different draws never
+   yield the same key material); that the real library draws anew for every handler of every instance it builds -
+   which is what makes the hypothesis a statement about the code - is checked on every run by harness/drv_C04.py
+   (chk_ifresh: the key material of really built, independent provider instances shows exactly the equalities of
+   ibuild_all under a supply of distinct draws; chk_icross: who accepts whose tokens).
+   Two instances with generated keys, the second built after the first, anything drawing in between: *)
+Theorem C04_generated_keys_fresh : forall sup s1 s2 n n2,
+  draws_distinct sup -> all_gen s1 -> all_gen s2 -> (snd (iconstruct sup s1 n) <= n2)%nat ->
+  forall k, inst_key (fst (iconstruct sup s1 n)) k -> inst_key (fst (iconstruct sup s2 n2)) k -> False.
+Proof. exact generated_disjoint. Qed.
+Print Assumptions C04_generated_keys_fresh.
+Theorem C04_generated_slot_keys_distinct : forall sup s n c c' k k',
+  draws_distinct sup -> all_gen s -> c <> c' ->
+  h_of (in_cfg (fst (iconstruct sup s n))) c = HOpaque k -> h_of (in_cfg (fst (iconstruct sup s n))) c' = HOpaque k' -> k <> k'.
+Proof. exact generated_slots_distinct. Qed.
+Print Assumptions C04_generated_slot_keys_distinct.
+(* a value under a key that is none of the provider's opaque handler keys is refused at every slot, whatever is inside *)
+Theorem C04_foreign_key_refused_at_every_slot : forall cfg expired s k nonce m,
+  (forall c k', h_of cfg c = HOpaque k' -> k' <> k) -> slot_resolve cfg expired s (AEnc k nonce m) = TErr EUnknownToken.
+Proof. exact foreign_key_every_slot. Qed.
+Print Assumptions C04_foreign_key_refused_at_every_slot.
+(* independently built instances refuse each other's codes, access tokens and refresh tokens in EVERY slot *)
+Theorem C04_independent_instances_refuse : forall sup s1 s2 n n2,
+  draws_distinct sup -> all_gen s1 -> all_gen s2 -> (snd (iconstruct sup s1 n) <= n2)%nat ->
+  let A := in_cfg (fst (iconstruct sup s1 n)) in let B := in_cfg (fst (iconstruct sup s2 n2)) in
+  forall expired s c nonce rnd sid exp,
+    slot_resolve A expired s (mint B (MTok c) nonce rnd sid exp) = TErr EUnknownToken /\
+    slot_resolve B expired s (mint A (MTok c) nonce rnd sid exp) = TErr EUnknownToken.
+Proof. exact independent_instances_refuse. Qed.
+Print Assumptions C04_independent_instances_refuse.
+(* a genuine token whose plaintext is encrypted anew under any key of the other instance is refused by its own minter *)
+Theorem C04_reencrypted_under_other_instance_refused : forall sup s1 s2 n n2,
+  draws_distinct sup -> all_gen s1 -> all_gen s2 -> (snd (iconstruct sup s1 n) <= n2)%nat ->
+  let IA := fst (iconstruct sup s1 n) in let IB := fst (iconstruct sup s2 n2) in
+  forall expired s c nonce nonce' rnd sid exp k,
+    (inst_key IB k -> slot_resolve (in_cfg IA) expired s (reencrypt k nonce' (mint (in_cfg IA) (MTok c) nonce rnd sid exp)) = TErr EUnknownToken) /\
+    (inst_key IA k -> slot_resolve (in_cfg IB) expired s (reencrypt k nonce' (mint (in_cfg IB) (MTok c) nonce rnd sid exp)) = TErr EUnknownToken).
+Proof. exact reencrypted_refused. Qed.
+Print Assumptions C04_reencrypted_under_other_instance_refused.
+(* unforgeable against the OTHER INSTANCE'S OPERATOR, who holds every key of that instance (from C04_unforgeable) *)
+Theorem C04_other_instance_cannot_forge : forall sup s1 s2 n n2 (K : term -> Prop) (minted : pystr -> pystr -> Prop),
+  draws_distinct sup -> all_gen s1 -> all_gen s2 ->
+  (snd (iconstruct sup s1 n) <= n2 \/ snd (iconstruct sup s2 n2) <= n)%nat ->
+  let A := fst (iconstruct sup s1 n) in let B := fst (iconstruct sup s2 n2) in
+  forall h k0, h_of (in_cfg A) h = HOpaque k0 ->
+  (forall t, K t -> ~ sub (Key k0) t) ->
+  (forall t0 nonce m, K t0 -> sub (AEnc k0 nonce m) t0 ->
+      exists rnd c sid exp, m = Atom (opaque_plain rnd c sid exp) /\ minted c sid) ->
+  forall expired t sid,
+    derivable (fun x => K x \/ exists k, inst_key B k /\ x = Key k) t ->
+    handler_info (in_cfg A) expired h t = TOk (Some sid) ->
+    exists c, class_ok h c = true /\ minted c sid /\ exists t0, K t0 /\ sub t t0.
+Proof. exact other_instance_cannot_forge. Qed.
+Print Assumptions C04_other_instance_cannot_forge.
+(* any two all-generated instances of one process history, whatever is built before, between and after them *)
+Theorem C04_history_instances_independent : forall sup pre s1 mid s2 post n,
+  draws_distinct sup -> all_gen s1 -> all_gen s2 ->
+  let n1 := inext pre n in
+  let n2 := inext mid (n1 + idraws s1) in
+  let i1 := fst (iconstruct sup s1 n1) in
+  let i2 := fst (iconstruct sup s2 n2) in
+  ibuild_all sup (pre ++ IInst s1 :: mid ++ IInst s2 :: post) n
+    = (ibuild_all sup pre n ++ i1 :: ibuild_all sup mid (n1 + idraws s1) ++ i2 :: ibuild_all sup post (n2 + idraws s2))%list
+  /\ forall k, inst_key i1 k -> inst_key i2 k -> False.
+Proof. exact ihistory_independent. Qed.
+Print Assumptions C04_history_instances_independent.
+(* positive control: instances the deployment gave the same keys are one provider - they resolve each other's tokens *)
+Theorem C04_same_given_keys_accept : forall sup s n n' expired c nonce rnd sid exp,
+  all_given s -> expired exp = false ->
+  handler_info (in_cfg (fst (iconstruct sup s n'))) expired c (mint (in_cfg (fst (iconstruct sup s n))) (MTok c) nonce rnd sid exp) = TOk (Some sid).
+Proof. exact given_instances_accept. Qed.
+Print Assumptions C04_same_given_keys_accept.
+(* non-vacuity, and the hypothesis is necessary: under a supply that hands out the same key material again (a key made
+   up once per process instead of once per handler) the second instance resolves the first one's access token *)
+Example C04_key_sources_nonvacuous :
+  draws_distinct sup0 /\ all_gen sGen /\ all_given sG5 /\
+  map ikeys (ibuild_all sup0 [IInst sGen; IOther 3; IInst sGen; IInst sG5; IInst sG5] 0)
+    = [[Some 1000; Some 1001; Some 1002; Some 1003]; [Some 1007; Some 1008; Some 1009; Some 1010];
+       [Some 5; Some 5; Some 5; Some 6]; [Some 5; Some 5; Some 5; Some 6]]%nat /\
+  chk_icross ([IInst sGen; IOther 3; IInst sGen], 0, 1, 1, None, 2, false, false)%nat = true /\
+  chk_icross ([IInst sGen; IOther 3; IInst sGen], 0, 0, 1, Some (1, 1), 2, true, false)%nat = true /\
+  chk_icross ([IInst sGen; IOther 3; IInst sGen], 0, 0, 1, None, 2, true, true)%nat = true /\
+  chk_icross ([IInst sG5; IInst sG5], 0, 1, 1, None, 2, false, true)%nat = true /\
+  ~ draws_distinct stale /\
+  let A := in_cfg (fst (iconstruct stale sGen 0)) in let B := in_cfg (fst (iconstruct stale sGen 4)) in
+  slot_resolve B (fun _ => false) SUserinfo (mint A (MTok KAccess) (PS "n") (PS "r") (PS "sid") (PS "99")) = TOk (Some (PS "sid")).
+Proof. exact key_sources_nonvacuous. Qed.
+Print Assumptions C04_key_sources_nonvacuous.
+(* the checker the driver evaluates on a value offered at all eight places (three class handlers and the class-agnostic
+   lookup, at the handler and at the session manager) is the pointwise model at each of them *)
+Theorem C04_grouped_checker_is_pointwise : forall steps i j m re obs,
+  igroup_model (steps, i, j, m, re, obs) = map (fun p => icross_model (steps, i, j, m, re, fst p, snd p, false)) igroup_slots.
+Proof. exact igroup_model_pointwise. Qed.
+Print Assumptions C04_grouped_checker_is_pointwise.
